@@ -30,6 +30,15 @@ RULES = [
  ("x/xibc/clients/light-clients/*/types/hashing.go", "<pkginit>", "sync", "sync.Pool", "class:hasher-pool",
   "pool of keccak states; every user calls Reset() before writing, the digest does not depend on which instance is reused"),
 
+
+ # ---- error text / execution context used as a value (kinds error-text-in-consensus-data, execution-context-capture) ----
+ ("app/app.go", "NewTeleport", "error-text-in-consensus-data", "*", "class:startup-wiring", "tmos.Exit(err.Error()) when the stores cannot be loaded at process start"),
+ ("x/aggregate/keeper/ibc_hook.go", "(Keeper).OnRecvPacket", "error-text-in-consensus-data", "err.Error()", "class:deterministic-error-text",
+  "EventIBCAggregate.Message (an event attribute, not state): text of the JSON decoding error of the packet data, of the bech32 error of the receiver and of ConvertCoin's sdk-wrapped errors — cosmos-sdk v0.45.2 wrappedError.Error() is \"<msg>: <parent>\" (no stack, no file:line), the chain is built from constant formats and packet / state data"),
+ ("x/xibc/core/packet/keeper/evm.go", "(Keeper).CallEVMWithData", "error-text-in-consensus-data", "evmtypes.ErrPostTxProcessing.Error()", "class:deterministic-error-text",
+  "text of a registered (constant) sdk error stored in the EVM response's VmError"),
+ ("x/xibc/core/packet/keeper/evm_hooks.go", "(Hooks).PostTxProcessing", "error-text-in-consensus-data", "err.Error()", "class:telemetry-only",
+  "fmt.Println of the error to the node's stdout (and a logger call): not part of any result"),
  # ---- holders: package-level variables of mutable type (kind process-state-holder). A NEW one is a finding by itself. ----
  ("x/xibc/testing/*", "*", "process-state*", "*", "class:test-support-only", "package xibctesting is imported by tests only"),
  ("app/test_helpers.go", "<pkginit>", "process-state-holder", "*", "class:test-support-only", "test helper (non _test file): consensus params handed to InitChain by tests"),
